@@ -2842,3 +2842,28 @@ package goatlang
 //@   property C07
 //@   trusted
 //@   modifies *
+
+// ---------------------------------------------------------------------------------------------
+// C13: range over a string yields, for every rune start, its byte offset and the decoded rune
+// (runeAt / runeWidth are Go's decoder, the same functions the engine uses for `for i, v := range s`).
+// ---------------------------------------------------------------------------------------------
+//@ spec runeSeq(s string, offs []int, r []rune) bool
+//@   def len(r) == len(offs) && (forall k int :: 0 <= k && k < len(offs) ==> 0 <= offs[k] && offs[k] < len(s) && r[k] == runeAt(s, offs[k])) && (len(offs) > 0 ==> offs[0] == 0) && (forall k int :: 0 <= k && k < len(offs) - 1 ==> offs[k+1] == offs[k] + runeWidth(s, offs[k]))
+//@ func (stringT).Range
+//@   property C13
+//@   allocates elems(rune) elems(int)
+//@   nopanic
+//@ func (stringT).Range loop 0
+//@   invariant#fresh (cap(r) == 0 || isfresh(arr(r))) && (cap(offs) == 0 || isfresh(arr(offs)))
+//@   invariant#seq runeSeq(string(s), offs, r)
+//@   invariant#pos (len(offs) == 0 ==> rangeidx == 0) && (len(offs) > 0 ==> rangeidx == offs[len(offs)-1] + runeWidth(string(s), offs[len(offs)-1]))
+//@ func (stringT).Range closure 0
+//@   property C13
+//@   captures#seq n == 0 && runeSeq(string(s), offs, r)
+//@   captures#whole (len(offs) == 0 ==> len(s) == 0) && (len(offs) > 0 ==> offs[len(offs)-1] + runeWidth(string(s), offs[len(offs)-1]) == len(s))
+//@   requires 0 <= n && n <= len(r) && len(r) == len(offs)
+//@   modifies B$Int
+//@   nopanic
+//@   reveal Int Int32
+//@   ensures#yield result2 ==> n == old(n) + 1 && old(n) < len(r) && result0 == Int(offs[old(n)]) && result1 == Int32(r[old(n)])
+//@   ensures#done !result2 ==> old(n) == len(r) && n == old(n)
